@@ -1074,7 +1074,10 @@ func c17Percentile(c *Ctx, p *Prog) {
 			return false, false
 		}
 		mk := func() *e6Interp {
-			return &e6Interp{PureCall: func(f *types.Func) bool { return true }, Decide: decide, MaxAtoms: 16}
+			// the interpolation proper may sit in a loop-free helper of the package: evaluated in place
+			return &e6Interp{PureCall: func(f *types.Func) bool { return true }, Decide: decide, MaxAtoms: 16, Inline: func(f *ssa.Function) bool {
+				return f.Pkg == fn.Pkg && f.Parent() == nil && len(naturalLoops(f)) == 0 && len(callsIn(f, "math", "", "Modf")) > 0
+			}}
 		}
 		outs, why := e6Enumerate(mk, fn.Blocks[0], nil, nil, 2048)
 		if why != "" && len(outs) == 0 {
